@@ -313,13 +313,12 @@ func rulePrunesImpl(scopeFiles func(file string) bool, ruleID string, min int, p
 						scan(cs.body, nil)
 					}
 				}
-				exitReachable := func(from *cfg.Block) bool {
-					if from == nil {
-						return false
+				// exitsWithoutDescent: the exits of the callback reachable from a block without passing a complete descent
+				exitsWithoutDescent := func(from *cfg.Block) int {
+					if from == nil || desc[from] {
+						return 0
 					}
-					if desc[from] {
-						return false
-					}
+					n := 0
 					r := fc.ReachableBlocks(from, nil, desc)
 					for b := range r {
 						if len(b.Succs) == 0 && b.Live {
@@ -331,10 +330,15 @@ func rulePrunesImpl(scopeFiles func(file string) bool, ruleID string, min int, p
 									}
 								}
 							}
-							return true
+							n++
 						}
 					}
-					return false
+					return n
+				}
+				lastExits := 0
+				exitReachable := func(from *cfg.Block) bool {
+					lastExits = exitsWithoutDescent(from)
+					return lastExits > 0
 				}
 				// the type switch on the node parameter directly in the literal's body
 				var sw *typeSwitchInfo
@@ -363,6 +367,13 @@ func rulePrunesImpl(scopeFiles func(file string) bool, ruleID string, min int, p
 					}
 					found[key] = true
 					if r, ok := auditedPrunes[key]; ok {
+						// the audit was given for the pruning exits that existed then: a further way out without
+						// descending is not covered by it
+						if max, pinned := pinnedPruneExits()[key]; pinned && max > 0 && lastExits > max {
+							c.Bad(ruleID, key, pos.Pos(), fmt.Sprintf("the audited prune (%s) covers %d way(s) out of this case without visiting the children; there are now %d: on the new one the children of this node kind are skipped", r, max, lastExits))
+							return
+						}
+						c.Tables[ruleID+"_prune_exits/"+key] = lastExits
 						c.OK(ruleID, key, pos.Pos(), "audited prune: "+r)
 					} else {
 						c.Bad(ruleID, key, pos.Pos(), "the callback can return without visiting the children of this node kind and the prune is not in the audited table: rules below such a node are skipped")
@@ -691,4 +702,19 @@ func commaOkCase(info *types.Info, body *ast.BlockStmt, nodeAliases map[types.Ob
 		nodeAliases[o] = true
 	}
 	return info.TypeOf(ta.Type), body.List[2]
+}
+
+
+var pinnedPruneExitsCache map[string]int
+
+// pinnedPruneExits: refs/audited_prunes.json — for every audited prune, the number of pruning exits it was given for.
+func pinnedPruneExits() map[string]int {
+	if pinnedPruneExitsCache == nil {
+		pinnedPruneExitsCache = map[string]int{}
+		var raw map[string]int
+		if err := loadRef("audited_prunes.json", &raw); err == nil {
+			pinnedPruneExitsCache = raw
+		}
+	}
+	return pinnedPruneExitsCache
 }
